@@ -68,11 +68,18 @@ pub(super) fn std_strings() -> FunctionMap {
         Ok(Value::String(joined))
     });
 
-    std_function!(functions => fn SUBSTRING(raw: Value::String, start: Value::Number, length: Value::Number) {
-        let start = start as usize - 1;
-        let length = length as usize;
-        let substring = &raw[start..std::cmp::min(start + length, raw.len())];
-        Ok(Value::String(substring.to_string()))
+    std_function!(functions => fn SUBSTRING[ctx](raw: Value::String, start: Value::Number, length: Value::Number) {
+        if !(start >= 1.0) {
+            return Err(ctx.error(
+                1,
+                "Invalid String Index",
+                format!("Make sure the start `{start}` is at least 1"),
+                "Positions in a STRING start at 1",
+            ));
+        }
+        // positions count characters, like indexing and FOR EACH; clipped at the end
+        let substring: String = raw.chars().skip(start as usize - 1).take(length as usize).collect();
+        Ok(Value::String(substring))
     });
 
     std_function!(functions => fn TO_CHAR_ARRAY(raw: Value::String) {
